@@ -34,8 +34,8 @@ PROP = "C09"
 RUNS = {"quick": 5000, "thorough": 500000}
 BUDGET_S = {"quick": 60, "thorough": 1500}
 RULE = ("one run = (hardware config, transpiler on/off, qubit budget 1..5) + a sequence of 4-30 qubit-lifecycle operations "
-        "(new, gates, measure in place/destructive, free, reset, create/recv keep plain | sequential+post routine | "
-        "context, flush) that never holds more than the budget; non-trivial = a virtual id was handed out again after its "
+        "(new, gates, measure in place/destructive into array or register, free, reset, create/recv keep plain | sequential+post "
+        "routine | context | with a minimum-fidelity bound whose re-try loop the link drives by reporting slow generation, flush) that never holds more than the budget; non-trivial = a virtual id was handed out again after its "
         "qubit was measured/freed, or an entangled qubit was mapped, with at least two flushes; distinct = distinct "
         "(config, op sequence) digest")
 COMPONENTS = {
